@@ -256,6 +256,27 @@ NONTRIV = {"parameter_names_cross_model_names", "conditional", "chained_comparis
 LISTED_PRIORITY = ["name_needing_escaping", "initial_assignment_variable", "initial_assignment_parameter", "computed_coefficient_neg", "computed_coefficient_pos", "chained_comparison", "conditional", "math_function", "fractional_coefficient", "constant", "power", "unary_minus"]
 
 
+def _raised_in(e: BaseException) -> str:
+    tb = e.__traceback__
+    last = "?"
+    while tb is not None:
+        fn = tb.tb_frame.f_code.co_filename
+        for pkg in ("sympy", "pysbml", "libsbml", "mxlpy"):
+            if f"/{pkg}/" in fn:
+                last = pkg
+        tb = tb.tb_next
+    return last
+
+
+def _conditional_inside_condition(src: str) -> bool:
+    import ast
+
+    for node in ast.walk(ast.parse(src)):
+        if isinstance(node, ast.IfExp) and any(isinstance(x, ast.IfExp) for x in ast.walk(node.test)):
+            return True
+    return False
+
+
 def examine(case: dict, ctx) -> Outcome:
     from mxlpy import sbml
 
@@ -306,7 +327,13 @@ def examine(case: dict, ctx) -> Outcome:
         try:
             m2 = sbml.read(f)
         except Exception as e:  # noqa: BLE001
-            out.bad(f"written-file-cannot-be-read:{type(e).__name__}:{root}", error=repr(e)[:200], src=case["src"][-500:])
+            where = _raised_in(e)
+            if where == "sympy" and _conditional_inside_condition(case["src"]):
+                # bucket by (type, innermost package frame, construct): the file is valid SBML, sympy's Piecewise
+                # cannot be built from a relational whose operand is itself a piecewise
+                out.bad(f"written-file-cannot-be-read:{type(e).__name__}:raised-in-sympy:conditional-inside-condition", error=repr(e)[:200], src=case["src"][-500:])
+            else:
+                out.bad(f"written-file-cannot-be-read:{type(e).__name__}:{root}", error=repr(e)[:200], raised_in=where, src=case["src"][-500:])
             return out
         if beyond:
             out.classes.append("export-accepted:beyond")
